@@ -35,10 +35,11 @@ TEMPS = {1: 298.15, 2: 500.0, 3: 900.0}
 MOLS = {'BensonGA': ['CC', 'CCCCCC', 'CCO', 'C=CC', 'c1ccccc1'],
         'GRWSurface2018': ['C([Pt])C', 'CC', 'OC([Pt])C'],
         'SalciccioliGA2012': ['C([Pt])C', 'CC([Pt])O'],
-        'X1': ['C([Ru])C', 'CC', 'C([Ru])([Ru])C']}
+        'X1': ['C([Ru])C', 'CC', 'C([Ru])([Ru])C'],
+        'GuSolventGA2017Aq': ['C', 'CC', 'CO'], 'GuSolventGA2017Vac': ['C', 'CC', 'CO']}
 GROUPS = {'BensonGA': ['C(C)(H)3', 'C(C)2(H)2'], 'GRWSurface2018': ['C(C)(H)3'],
           'SalciccioliGA2012': ['C(C)(H)3'], 'X1': ['C(C)(H)3', 'Zz(Q)2'], 'X2': ['C(C)(H)3', 'Zz(Q)2'],
-          'X3': ['Zz(Q)2', 'Yy(Q)']}
+          'X3': ['Zz(Q)2', 'Yy(Q)'], 'GuSolventGA2017Aq': ['C(C)(H)3'], 'GuSolventGA2017Vac': ['C(C)(H)3']}
 GET = {'Cp': 'get_CpoR', 'H': 'get_HoRT', 'S': 'get_SoR', 'G': 'get_GoRT'}
 
 PURE = r'''
@@ -52,6 +53,7 @@ def digest(lib):
         c = lib[g].get('thermochem')
         h.update(repr((str(g), None if c is None else (repr(c.T_ref), repr(c.ND_H_ref), repr(c.ND_S_ref),
                  sorted((repr(float(t)), repr(float(v))) for t, v in (c.ND_Cp_data or {}).items()), repr(c.get_range())))).encode())
+    h.update(repr(sorted((str(k), [(float(a), str(b)) for a, b in v]) for k, v in lib.scheme.remaps.items())).encode())
     return h.hexdigest()[:16]
 def res(f):
     try:
@@ -115,6 +117,7 @@ def digest(lib):
             repr(c.T_ref), repr(c.ND_H_ref), repr(c.ND_S_ref),
             sorted((repr(float(t)), repr(float(v))) for t, v in (c.ND_Cp_data or {}).items()),
             repr(c.get_range())))).encode())
+    h.update(repr(sorted((str(k), [(float(a), str(b)) for a, b in v]) for k, v in lib.scheme.remaps.items())).encode())
     return h.hexdigest()[:16]
 
 
@@ -324,7 +327,7 @@ def run(ctx):
                 '  "Yy(Q)":\n    thermochem:\n      T_ref: 298.15 K\n      ND_S_ref: 4.0\n')
     paths = {'X1': os.path.join(x1, 'library.yaml'), 'X2': os.path.join(x2, 'library.yaml'),
              'X3': os.path.join(x3, 'library.yaml')}
-    libs = ['BensonGA', 'GRWSurface2018', 'X1', 'X2', 'X3'] + (['SalciccioliGA2012'] if thorough else [])
+    libs = ['BensonGA', 'GRWSurface2018', 'X1', 'X2', 'X3'] + (['SalciccioliGA2012', 'GuSolventGA2017Aq', 'GuSolventGA2017Vac'] if thorough else [])
     rng_ = random.Random(ctx.seed)
     histories = []
     # the TLC counterexample, instantiated on every library (abstract m1, m2 -> real molecules)
